@@ -38,7 +38,9 @@ MANIFEST = dict(
           "resolve the formatter argument by the flavour, then render; KeyError from every method for unregistered names); "
           "custom_subst_scope_pretty; flavour_rule (_is_xml = nearest explicit known_xml on the way to the root, else the root's is_xml), "
           "output_calls_leave_no_trace + render_depends_on_current_tree_only (sessions of edits and output calls: an output call returns "
-          "what it returns on the documents produced by the edits alone, flavour taken from the element's current position); builder side "
+          "what it returns on the documents produced by the edits alone, flavour taken from the element's current position); "
+          "copy_renders_like_original / copy_keeps_flavour_everywhere / flavour_is_positional (copy_self records is_xml=self._is_xml: a "
+          "copy, detached or put anywhere, renders like its original did where it stood); builder side "
           "(code-mirror of handle_starttag's attribute dict incl. on_duplicate_attribute, _replace_cdata_list_attribute_values, "
           "can_be_empty_element, preserve_whitespace_tags): builder_sets_are_sets / builder_listing_order_irrelevant (empty_element_tags, "
           "preserve_whitespace_tags, cdata_list_attributes and the sets in it are consulted through membership/lookup only: equivalent "
@@ -57,7 +59,10 @@ MANIFEST = dict(
           "every stream; histories (hand-made builder-less elements put into a tree of one "
           "flavour, read-only operations there, moved into a tree of another flavour, rendered from the element, its descendants, its "
           "parent and the root with names/None/bare functions: equal to a never-touched twin, to the oracle for the current flavour and to "
-          "the model's walk over the known_xml chain); parses under builder configurations (empty_element_tags / preserve_whitespace_tags / "
+          "the model's walk over the known_xml chain; copy.copy / copy.deepcopy / copy_self of the element and of its descendant tags, "
+          "rendered detached and under a root of another flavour; known finding C15-bare-root-flavour-getattr is classified from the "
+          "case: the flavour is the default of a flavour-less plain-Tag root and a tag named is_xml is in the tree or a copy carries it); "
+          "parses under builder configurations (empty_element_tags / preserve_whitespace_tags / "
           "multi_valued_attributes / on_duplicate_attribute at several values, start tags with repeated keys and whitespace-separated "
           "values) against the model's build and an independent reading, then rendered three-way; the mirror of "
           "_populate_class_variables run on the generated stdlib tables against the live regex particles, CHARACTER_TO_HTML_ENTITY and "
@@ -749,7 +754,7 @@ CAP = 4
 
 def report(ctx, stream, what, **kw):
     """at most CAP violations per stream are written out (the rest are counted), so every failing stream gets its replays"""
-    if sum(1 for v in ctx.violations if v["stream"] == stream) < CAP:
+    if kw.get("kf") in ctx.known or sum(1 for v in ctx.violations if v["stream"] == stream) < CAP:
         ctx.violation(what, stream=stream, **kw)
     else:
         ctx.count(f"{stream}:further-violations")
@@ -1496,18 +1501,78 @@ def do_move(el_, container, move):
         container.extend([el_])
 
 
+def take_copy(orig, how, flags):
+    """copy.copy / copy.deepcopy / copy_self of a tag; every copied tag is recorded with the flavour its original has NOW
+    (the documented rule: a copy is an element of the same flavour as its original), strings with none"""
+    import copy
+    e = E()
+    if how == "copy_self":
+        c = orig.copy_self()
+        pairs = [(orig, c)]
+    else:
+        c = copy.copy(orig) if how == "copy" else copy.deepcopy(orig)
+        pairs = list(zip([orig] + list(orig.descendants), [c] + list(c.descendants)))
+    for o, n in pairs:
+        flags[id(n)] = flavour_of(o, flags) if is_tag(o) else None
+        if is_tag(o) and flavour_source(o, flags) == "default":
+            flags.setdefault("_defaulted", set()).add(id(n))
+    return c
+
+
+def flavour_source(n, flags):
+    """'explicit' (a flavour given at construction somewhere on the way up, or a BeautifulSoup root) or 'default' (nothing on the way
+    up and the root is a plain Tag/string: the documented guess 'HTML'; also a copy of an element whose flavour was that guess)"""
+    x = n
+    while True:
+        if flags.get(id(x)) is not None:
+            return "default" if id(x) in flags.get("_defaulted", ()) else "explicit"
+        if x.parent is None:
+            return "explicit" if type(x).__name__ == "BeautifulSoup" else "default"
+        x = x.parent
+
+
+def classify_history(n, flags, root):
+    """known finding C15-bare-root-flavour-getattr: the receiver's flavour is the default of a flavour-less plain-Tag root and either a
+    tag named is_xml is in that tree or the flavour reaches the receiver through a copy"""
+    if flavour_source(n, flags) != "default":
+        return None
+    x = n
+    while x is not None:
+        if id(x) in flags.get("_defaulted", ()):
+            return "C15-bare-root-flavour-getattr"
+        top = x
+        x = x.parent
+    if is_tag(top) and top.find("is_xml") is not None:
+        return "C15-bare-root-flavour-getattr"
+    return None
+
+
 def play_history(sc, touched):
-    """-> (final root, the moved element, flags) for a scenario; `touched` = also perform the read-only operations"""
+    """-> ([(root, element)], flags): the final tree with the moved element, then one entry per copy taken on the way;
+    `touched` = also perform the read-only operations"""
     flags = {}
     el_ = make_hand(sc["hand"], flags)
     root = None
-    for step in sc["steps"]:
+    views = []
+    for si, step in enumerate(sc["steps"]):
         root, container = make_root(step["root"], flags)
         do_move(el_, container, step["move"])
         if touched:
             for t in step["touches"]:
                 do_touch(el_, t)
-    return root, el_, flags
+        for cp in sc.get("copies", []):
+            if cp["at"] % len(sc["steps"]) != si:
+                continue
+            cands = [d for d in [el_] + (list(el_.descendants) if is_tag(el_) else []) if is_tag(d)]
+            if not cands:
+                continue
+            c = take_copy(cands[cp["of"] % len(cands)], cp["how"], flags)
+            croot = c
+            if cp.get("into"):
+                croot, ccont = make_root(cp["into"], flags)
+                ccont.append(c)
+            views.append((croot, c))
+    return [(root, el_)] + views, flags
 
 
 def flavour_of(n, flags):
@@ -1565,37 +1630,46 @@ def gen_scenario(r):
     if r.random() < 0.3:
         steps[1]["touches"] = r.sample(TOUCHES, r.randint(1, 2))
         steps.append({"root": r.choice(ROOTS), "move": r.choice(MOVES), "touches": []})
-    return {"hand": gen_hand(r), "steps": steps, "obs_seed": r.randrange(10 ** 9)}
+    copies = [{"of": r.randrange(8), "how": r.choice(["copy", "deepcopy", "deepcopy", "copy_self"]), "at": r.randrange(4),
+               "into": r.choice([None, None, "htmlsoup", "xmltag", "baretag"])} for _ in range(r.choice([0, 1, 1, 2]))]
+    return {"hand": gen_hand(r), "steps": steps, "copies": copies, "obs_seed": r.randrange(10 ** 9)}
 
 
-def check_history(ctx, batch, sc, stream="history"):
+def history_rows(sc, touched):
     import random as _random
-    outs = {}
-    for touched in (False, True):
-        root, el_, flags = play_history(sc, touched)
-        obs = history_observations(root, el_, flags, _random.Random(sc["obs_seed"]))
-        res = []
+    views, flags = play_history(sc, touched)
+    res = []
+    for vi, (root, el_) in enumerate(views):
+        obs = history_observations(root, el_, flags, _random.Random(sc["obs_seed"] + vi))
         for path, entry, fi in obs:
             n = node_at(root, tuple(path))
             fs = HIST_FMTS[fi]
             real = show(run_entry(n, entry, real_formatter_arg(fs)))
             xml = flavour_of(n, flags)
             want = show(oracle_entry(n, entry, intended_for(fs, xml)))
-            res.append((path, entry, fi, real, want, xml, n, flags))
-        outs[touched] = res
+            res.append((vi, path, entry, fi, real, want, xml, n, flags, root))
+    return res
+
+
+def check_history(ctx, batch, sc, stream="history"):
+    outs = {touched: history_rows(sc, touched) for touched in (False, True)}
     ctx.count("history:scenarios")
-    for k, ((path, entry, fi, real, want, xml, n, flags), (_, _, _, real0, want0, _, _, _)) in enumerate(zip(outs[True], outs[False])):
+    ctx.count("history:copies", len(sc.get("copies", [])))
+    for k, ((vi, path, entry, fi, real, want, xml, n, flags, _), row0) in enumerate(zip(outs[True], outs[False])):
+        real0 = row0[4]
         fs = HIST_FMTS[fi]
-        case = {"op": "history", "scenario": sc, "observation": k, "path": path, "entry": entry, "fmt": fs}
-        hand_made = flags.get(id(n)) is None
+        case = {"op": "history", "scenario": sc, "observation": k, "view": vi, "path": path, "entry": entry, "fmt": fs}
+        hand_made = flags.get(id(n)) is None or vi > 0
         ctx.case(("history", json.dumps(case, sort_keys=True, default=str)) if hand_made else None)
-        ctx.count(f"history:flavour:{'xml' if xml else 'html'}:{'hand' if hand_made else 'built'}")
+        ctx.count(f"history:flavour:{'xml' if xml else 'html'}:{'copy' if vi > 0 else 'hand' if flags.get(id(n)) is None else 'built'}")
+        kf = classify_history(n, flags, None)
         if real != real0:
             report(ctx, stream, f"output through {entry} depends on output calls made earlier (before the element was moved)", case=case,
-                   expected=real0, observed=real, kf=None)
+                   expected=real0, observed=real, kf=kf)
         elif real != want:
-            report(ctx, stream, f"output through {entry} does not follow the flavour of the tree the element is in now", case=case,
-                   expected=want, observed=real, kf=None)
+            what = (f"a copy rendered through {entry} does not have the flavour its original had when it was copied" if vi > 0 else
+                    f"output through {entry} does not follow the flavour of the tree the element is in now")
+            report(ctx, stream, what, case=case, expected=want, observed=real, kf=kf)
         if entry == "format_string":
             continue
         mode, prefix, pt = model_mode(n, entry)
@@ -1614,6 +1688,18 @@ def stream_history(ctx, batch, n):
                 check_history(ctx, batch, {"hand": ["T", "script", None, [["a", ""]], [["S", "NavigableString", "if (a < b) c"]]],
                                            "steps": [{"root": a, "move": mv, "touches": [touch]}, {"root": b, "move": "append", "touches": []}],
                                            "obs_seed": 1})
+    # a flavour-less tag living in a tree of either flavour, copied (3 ways), the copy detached or put under another root
+    for how in ("copy", "deepcopy", "copy_self"):
+        for a in ROOTS:
+            for into in (None, "htmlsoup", "xmltag"):
+                check_history(ctx, batch, {"hand": ["T", "div", None, [], [["T", "style", None, [["a", "x&y"]], [["S", "NavigableString", "a < b & c"]]],
+                                                                         ["T", "b", True, [], [["S", "NavigableString", "t&"]]]]],
+                                           "steps": [{"root": a, "move": "append", "touches": []}],
+                                           "copies": [{"of": 0, "how": how, "at": 0, "into": into}, {"of": 1, "how": how, "at": 0, "into": into}],
+                                           "obs_seed": 2})
+    # a descendant NAMED is_xml in a builder-less tree (known finding C15-bare-root-flavour-getattr)
+    check_history(ctx, batch, {"hand": ["T", "div", None, [], [["T", "is_xml", None, [], []], ["T", "script", None, [], [["S", "NavigableString", "1<2 & 3"]]]]],
+                               "steps": [{"root": "baretag", "move": "append", "touches": []}], "copies": [], "obs_seed": 3})
     for _ in range(n):
         check_history(ctx, batch, gen_scenario(r))
         if len(batch.lines) > 4000:
@@ -2109,25 +2195,19 @@ def replay(path):
         print("property demands            :", want)
         return 0 if real == want else 1
     if op == "history":
-        import random as _random
         sc = c["scenario"]
-        rows = {}
-        for touched in (False, True):
-            root, el_, flags = play_history(sc, touched)
-            path, entry, fi = history_observations(root, el_, flags, _random.Random(sc["obs_seed"]))[c["observation"]]
-            n = node_at(root, tuple(path))
-            fs = HIST_FMTS[fi]
-            rows[touched] = (show(run_entry(n, entry, real_formatter_arg(fs))), show(oracle_entry(n, entry, intended_for(fs, flavour_of(n, flags)))),
-                             flavour_of(n, flags), root)
+        rows = {t: history_rows(sc, t)[c["observation"]] for t in (False, True)}
+        vi, path, entry, fi, real, want, xml, n, flags, root = rows[True]
         print("hand-made element:", sc["hand"])
         print("steps (root kind, how it was moved in, read-only operations performed there):", sc["steps"])
-        print("final tree:", ascii(rows[True][3].decode(formatter=None))[:400])
-        print("receiver path:", c["path"], "entry point:", c["entry"], "formatter:", c["fmt"], "| flavour of the receiver now:",
-              "xml" if rows[True][2] else "html")
-        print("implementation, read-only operations performed :", ascii(rows[True][0]))
-        print("implementation, never rendered before          :", ascii(rows[False][0]))
-        print("property demands (current flavour)             :", ascii(rows[True][1]))
-        return 0 if rows[True][0] == rows[False][0] == rows[True][1] else 1
+        if vi > 0:
+            print("copies taken:", sc.get("copies"), "-> this observation is on copy number", vi)
+        print("tree of the receiver:", ascii(root.decode(formatter=None))[:400])
+        print("receiver path:", path, "entry point:", entry, "formatter:", HIST_FMTS[fi], "| flavour the receiver must have:", "xml" if xml else "html")
+        print("implementation, read-only operations performed :", ascii(real))
+        print("implementation, never rendered before          :", ascii(rows[False][4]))
+        print("property demands                               :", ascii(want))
+        return 0 if real == rows[False][4] == want else 1
     if op == "entity-seed":
         import html as pyhtml
         keys = entity_keyset()
